@@ -396,8 +396,16 @@ def abstract_trace(trace, victims):
             kill = {"idx": len(calls), "stage": "b" if inj == "KB" else "a"}
             if inj == "KA" and name == "ficlone" and ret < 0:
                 kill["env_fail"] = ERRNAME.get(err, "EOTHER")      # the sandbox refused the clone, then the kill
+            elif inj == "KA" and ret < 0 and err == 36:
+                kill["env_fail"] = "EOTHER"                         # ENAMETOOLONG (no name-length limit in the model)
+            elif inj == "KA" and name == "open" and ret < 0 and err == 13:
+                kill["env_fail"] = "EPERM"                          # EACCES (permissions are not modelled)
             break
         env_fail = name == "ficlone" and ret < 0 and not injected
+        if ret < 0 and err == 36 and not injected:
+            # ENAMETOOLONG: FsModel.v has no limit on the length of a name; the kernel's refusal (e.g. of the temp name of a
+            # file whose own name is longer than 230 bytes) is fed to the model as an environment fault of that call
+            res, env_fail = "EOTHER", True
         if name == "open" and ret < 0 and err == 13 and not injected:
             # EACCES: permissions are not part of FsModel.v; the refusal is fed to the model as an environment fault
             res, env_fail = "EPERM", True
